@@ -292,7 +292,7 @@ pub fn run(a: &Args, rep: &mut Report) {
         rep.class("index|exhaustive-starts-counts");
         rep.class("index|exhaustive-pairs");
     }
-    let n = a.budget(400_000, 300_000_000);
+    let n = a.budget(2_000_000, 300_000_000);
     for i in 0..n {
         let (s, cs) = pick_addr(&mut r);
         if !gen::is_canonical(s) {
